@@ -217,7 +217,7 @@ def gen_history(rng):
             q = rng.randrange(nres)
             b2[q] = max(1, rhs[q] + rng.choice([-3, -2, -1, 1, 2]))
             variants.append({"b": b2, "c": c if rng.random() < 0.7 else [rng.randint(1, 9) for _ in range(n)]})
-    cfgs = [{"minimize": False, "lns_iterations": rng.choice([5, 10]), "seed": seed}]
+    cfgs = [{"minimize": False, "lns_iterations": rng.choice([5, 10]), "seed": seed, "lns_destroy_frac": [0.1, 0.3, 0.6, 1.0][seed % 4]}]
     if rng.random() < 0.3:
         cfgs.append({"minimize": True, "lns_iterations": 3, "seed": seed})
     return {"A": rows, "b": rhs, "c": c, "ints": list(range(1, n + 1)), "cv": 0, "ub": [1] * n, "configs": cfgs, "floats": False, "variants": variants}
